@@ -22,8 +22,11 @@ LEVEL_TEXT = ("Partial. Unbounded proof: for every byte string (and start positi
               "(bytes left + 1) iterations - it returns a result or raises; counts and sizes read from the input (a parameter "
               "count of 2^32-1, a section size of 2^32-1) do not matter, because every iteration reads at least one byte and a "
               "read at the end of the data raises; an accepted chunk header makes the AXML chunk loop advance by at least "
-              "eight bytes. Not proved: termination of the complete DEX / AXML / ARSC / APK parsers; they are run on "
-              "mutated, truncated and crafted inputs under a time limit that grows with the input size.")
+              "eight bytes; and the complete binary XML parser as modelled for C26 (chunk loop, event loop, resource map, "
+              "namespaces, attribute records, every string pool lookup) ends on EVERY byte string within fuel linear in its "
+              "length. Not proved: termination of the complete DEX and ARSC parsers and of the zip layer; they are run on "
+              "mutated, truncated and crafted inputs under a time limit that grows with the input size (reference "
+              "resolution in resource tables is C29).")
 LEVEL_NOTE = ("Trusted: Coq kernel; coq/Misc/TermModel.v as a rendering of ARSCHeader.__init__, DebugInfoItem.__init__ and "
               "HiddenApiClassDataItem.__init__ (BytesIO as the list of remaining bytes, struct.error on short reads, the "
               "IntEnum conversions as a range test), coq/Dex/StringsModel.v for read_null_terminated_string, "
